@@ -181,12 +181,23 @@ example : (fileOut [.limit 2] [0] "\n\ny\n".toList).1 = "\n\ny\n".toList ∧
 /-- The counter a file ending in an empty line leaves behind. -/
 example : (fileOut [.limit 2] [0] "x\n\n".toList).2 = [1] := by decide
 
-/-- T6 partial: a file whose first line has a non-blank character is written identically from every start state of
-the post-processor list (any processors, any limits; the states only need the right length). -/
+/-- T6 partial: a file is written identically from two start states of the post-processor list (any processors, any
+limits) whenever the two states agree on the counters of the limiters (the state slot of a trimmer is never read) OR
+the first line of the file has a non-blank character.  What remains excluded — start states that differ on a limiter
+AND a file that begins with a blank line — is exactly where the witness above lives. -/
 theorem C10_limiter_start_independent_partial (pps : List PP) (ss ss' : List Nat) (text : Str)
-    (hl : ss.length = pps.length) (hl' : ss'.length = pps.length) (h : firstLineNonBlank text = true) :
-    (fileOut pps ss text).1 = (fileOut pps ss' text).1 :=
-  (fileOut_start_independent pps ss ss' text hl hl' h).1
+    (h : limAgree pps ss ss' ∨
+         (ss.length = pps.length ∧ ss'.length = pps.length ∧ firstLineNonBlank text = true)) :
+    (fileOut pps ss text).1 = (fileOut pps ss' text).1 := by
+  rcases h with h | ⟨hl, hl', h⟩
+  · simp only [fileOut]
+    rw [(pipeLinesSt_agree pps ss ss' (specLines text) h).1]
+  · exact (fileOut_start_independent pps ss ss' text hl hl' h).1
+
+/-- Both disjuncts are used: a blank first line with agreeing limiter counters (the trimmer's slot differs), and a
+non-blank first line with different counters. -/
+example : (fileOut [.trim, .limit 1] [0, 1] "\n\ny\n".toList).1 = (fileOut [.trim, .limit 1] [7, 1] "\n\ny\n".toList).1 ∧
+    (fileOut [.limit 1] [0] "y\n\n\n".toList).1 = (fileOut [.limit 1] [5] "y\n\n\n".toList).1 := by decide
 
 /-- A file that is empty is written (as nothing) identically from every start state. -/
 theorem C10_limiter_empty_file (pps : List PP) (ss ss' : List Nat) :
